@@ -100,6 +100,7 @@ type worker struct {
 	levelStart []int
 	count      int
 	prevTrace  []Decision
+	rq         int
 }
 
 // Path is one execution of the harness.
@@ -139,6 +140,7 @@ type Path struct {
 	ghost    map[string]Value
 	funcs    map[string]int
 	unwind   int
+	rs       *raceState
 	quick    int
 	unknowns int
 }
@@ -711,7 +713,12 @@ func (r *Result) Summary() string {
 	if r.Incomplete != "" {
 		fmt.Fprintf(&sb, "  INCOMPLETE: %s\n", r.Incomplete)
 	}
+	shown := map[string]int{}
 	for _, v := range r.Violations {
+		shown[v.AssertID]++
+		if shown[v.AssertID] > 4 {
+			continue
+		}
 		fmt.Fprintf(&sb, "  witness assert=%s known=%q strings=%v model=%v panic=%s notes=%v\n", v.AssertID, v.Known, v.Strings, v.Model, v.Panic, v.Notes)
 	}
 	return sb.String()
